@@ -208,7 +208,10 @@ def conditioning(term, conds_j, rows, var, dat):
             # only residuals that matter for the loss (|whitened| >= 1e-3) enter the cancellation factor
             canc = np.where(w >= 1e-3, canc, 1.0)
             kap_e = max(kap_e, float(np.max(canc)))
-            cS = float(np.linalg.cond(S))
+            # conditioning of S after symmetric diagonal scaling: triangular solves and the SVD of a graded, weakly
+            # correlated factor lose accuracy with the correlation structure, not with the grading (measured: deviations
+            # stay at 1e-14 of the loss for raw condition numbers up to 1e17); the raw condition enters with a weight
+            cS = min(float(np.linalg.cond(S)), 1e4 * float(np.linalg.cond(S / np.outer(Sd, Sd))))
             kap_S = max(kap_S, cS)
             K = P @ H.T @ np.linalg.inv(S)
             # how much the state moves per unit of prior standard deviation: gain-error amplification downstream
@@ -505,6 +508,21 @@ def corpus(ctx):
         check_timeseries(ctx, cfg, 1, sol, 0, avg, data, std, dict(case, avg=avg), True)
         check_terminal(ctx, cfg, 1, sol, 0, 4, data[4], std[4], case)
         check_to_derivative(ctx, cfg, 1, sol, 1, case)
+        ctx.case(dict(case, data=None))
+    # (c) dense model, two dimensions, noise levels nine orders of magnitude apart within one time point (inside the
+    # property's range [1e-6, 1e3]): the gain goes through a strongly graded innovation factor; no singular value of it
+    # may be discarded (seeded change C12-s2: a fixed cut-off 1e-6 in the least-squares solve)
+    lv = problems.PolyField(2, 1, [[(Fraction(1, 2), (1, 0, 0)), (Fraction(-3, 4), (1, 1, 0))], [(Fraction(-1), (0, 1, 0)), (Fraction(1, 4), (1, 1, 0))]])
+    cfg = sm.Config(fact="dense", solver="solver", strategy="fixedinterval", lin="ts0", q=2, init="exact")
+    hs = [0.125, 0.25, 0.125, 0.25]
+    sol, _ = make_solution(cfg, lv, [np.array([1.0, 0.5])], 0.0, hs)
+    base = np.asarray(sol.u.mean[0], dtype=np.float64)
+    offs = np.array([[0.0, 0.0], [2e-6, 0.5], [-1e-6, -0.25], [0.25, 1e-6], [3e-6, 0.125]])
+    data = base + offs
+    std = np.array([[1e-5, 1e3], [1e-6, 1e3], [1e-5, 1e2], [1e2, 1e-6], [1e-6, 1e3]])
+    for avg in (False, True):
+        case = {"corpus": "graded-noise", "fact": "dense", "data": data.tolist(), "std": std.tolist(), "steps": hs, "avg": avg}
+        check_timeseries(ctx, cfg, 2, sol, 0, avg, data, std, case, True)
         ctx.case(dict(case, data=None))
 
 
